@@ -142,6 +142,7 @@ var Mutants = map[string][]Mutant{
 		{"number table larger than the buffer", "path.go", `\t\t'A': 7,\n`, "\t\t'A': 8,\n", "E4.table-bound"},
 	},
 	"C12": {
+		{"faux bold writes its stroke width directly", "renderers/pdf/pdf.go", `\t\t\t\tr\.w\.SetLineWidth\(span\.Face\.FauxBold \* 2\.0\)\n`, "\t\t\t\tr.w.Write([]byte(\" .04 w\"))\n", "E6.operator-through-setter"},
 		{"IsSimilarity tests row lengths and the column dot product", "util.go", `(?s)(func \(m Matrix\) IsSimilarity\(\) bool \{.*?)\tc := m\[0\]\[0\]\*m\[1\]\[0\] \+ m\[0\]\[1\]\*m\[1\]\[1\]\n`, "${1}\tc := m[0][0]*m[0][1] + m[1][0]*m[1][1]\n", "E11.gram-consistency"},
 		{"PDF SetFill restores the opacity only for a changed paint", "renderers/pdf/writer.go", `(?s)\t\tw\.fill = fill\n\t\}\n\n[^\n]*\n\tif fill\.IsGradient\(\) \{\n\t\tw\.SetAlpha\(1\.0\)\n\t\} else if fill\.IsColor\(\) \{\n\t\tw\.SetAlpha\(float64\(fill\.Color\.A\) / 255\.0\)\n\t\}\n`, "\t\tw.fill = fill\n\t\tif fill.IsColor() {\n\t\t\tw.SetAlpha(float64(fill.Color.A) / 255.0)\n\t\t}\n\t}\n", "E6.memo-shared-state"},
 		{"miter limit only checked when the join is unchanged", "renderers/pdf/writer.go", `\t\tw\.lineJoin = lineJoin\n\t\}\n\tif lineJoin == 0 && miterLimit != w\.miterLimit \{`, "\t\tw.lineJoin = lineJoin\n\t} else if lineJoin == 0 && miterLimit != w.miterLimit {", "E6.memo-independent"},
@@ -192,6 +193,7 @@ var Mutants = map[string][]Mutant{
 		{"rasterizer ignores the fill rule", "renderers/rasterizer/rasterizer.go", `\t\tr\.scanner\.SetWinding\(style\.FillRule != canvas\.EvenOdd\)\n`, ``, "E6.style-field"},
 	},
 	"C15": {
+		{"checkDash hands out the canonical dashes without their offset", "path.go", `\t\treturn d\[:0\], false // first space covers whole path, no stroke\n\t\}\n\treturn orig, true\n`, "\t\treturn d[:0], false // first space covers whole path, no stroke\n\t}\n\t_ = orig\n\treturn d, true\n", "E11.dash-pair"},
 		{"DrawPath skips the coordinate view at the origin", "canvas.go", `\tcoord := c\.coordView\.Dot\(Point\{x, y\}\)\n\tm = m\.Mul\(c\.view\)\.Translate\(coord\.X, coord\.Y\)\n\n\tfor _, path := range paths`, "\tm = m.Mul(c.view)\n\tif x != 0.0 || y != 0.0 {\n\t\tcoord := c.coordView.Dot(Point{x, y})\n\t\tm = m.Translate(coord.X, coord.Y)\n\t}\n\n\tfor _, path := range paths", "E11.draw-matrix"},
 		{"FitImage reflects about the size taken before the crop", "canvas.go", `m = m\.ReflectYAbout\(float64\(img\.Bounds\(\)\.Size\(\)\.Y\) / 2\.0\)\n\t\}\n\tif c\.coordSystem == CartesianII \|\| c\.coordSystem == CartesianIII \{\n\t\tm = m\.ReflectXAbout\(float64\(img\.Bounds\(\)\.Size\(\)\.X\) / 2\.0\)\n\t\}\n\tc\.RenderImage\(img, m\)\n\}\n\n// DrawPath`, "m = m.ReflectYAbout(height / 2.0)\n\t}\n\tif c.coordSystem == CartesianII || c.coordSystem == CartesianIII {\n\t\tm = m.ReflectXAbout(float64(img.Bounds().Size().X) / 2.0)\n\t}\n\tc.RenderImage(img, m)\n}\n\n// DrawPath", "E11.reflect-image"},
 		{"DrawPath shares the style between its paths again", "canvas.go", `\t\tstyle := style // the stroke may be dropped for this path only\n`, "", "E11.draw-loop-state"},
@@ -225,6 +227,7 @@ var Mutants = map[string][]Mutant{
 		{"Linebreak looks at items[b+1] unguarded", "text/linebreak.go", `\(len\(lb\.items\) <= b\+1 \|\| lb\.items\[b\+1\]\.Type != PenaltyType\)`, `lb.items[b+1].Type != PenaltyType`, "E4.neighbour-guard"},
 	},
 	"C18": {
+		{"vertical TJ adjustment against the horizontal advance", "renderers/pdf/writer.go", `origYAdvance := -int32\(w\.font\.SFNT\.GlyphVerticalAdvance\(glyph\.ID\)\)`, "origYAdvance := -int32(w.font.SFNT.GlyphAdvance(glyph.ID))", "E11.advance-axis"},
 		{"text matrix shear entry not compared", "renderers/pdf/writer.go", ` && canvas\.Equal\(m\[0\]\[1\], w\.textPosition\[0\]\[1\]\)`, "", "E5.text-matrix"},
 		{"sub/superscript size scaled after MmPerEm", "font.go", `\t\tface\.YOffset = int32\(float64\(yOffset\) / scale\)\n\t\}\n\tface\.MmPerEm = face\.Size / float64\(face\.Font\.Head\.UnitsPerEm\)\n\treturn face\n`, "\t\tface.YOffset = int32(float64(yOffset) / scale)\n\t}\n\tface.MmPerEm = face.Size / float64(face.Font.Head.UnitsPerEm)\n\tif face.Variant == FontSubscript {\n\t\tface.Size *= 0.999\n\t}\n\treturn face\n", "E11.derived-scale"},
 		{"W range entry carries the next run's width", "renderers/pdf/writer.go", `W = append\(W, j, k-1, widths\[j\]\)`, "W = append(W, j, k-1, width)", "E5.w-run"},
@@ -235,6 +238,8 @@ var Mutants = map[string][]Mutant{
 		{"vertical fonts written as horizontal", "renderers/pdf/writer.go", `w\.writeFonts\(w\.fontsV, true\)`, `w.writeFonts(w.fontsV, false)`, "E5.fontmaps"},
 	},
 	"C19": {
+		{"viewBox width read as max-x", "svg.go", `m := Identity\.Scale\(width/viewbox\[2\], height/viewbox\[3\]\)`, "m := Identity.Scale(width/(viewbox[2]-viewbox[0]), height/viewbox[3])", "E11.viewbox-extent"},
+		{"matrix() transform read row by row", "svg.go", `m = m\.Mul\(Matrix\{\{d\[0\], d\[2\], d\[4\]\}, \{d\[1\], d\[3\], d\[5\]\}\}\)`, "m = m.Mul(Matrix{{d[0], d[1], d[4]}, {d[2], d[3], d[5]}})", "E11.svg-transform"},
 		{"stroke-dasharray refills the inherited slice", "svg.go", `\t\t\tsvg\.ctx\.Style\.Dashes = svg\.parsePoints\(val\)\n`, "\t\t\tsvg.ctx.Style.Dashes = append(svg.ctx.Style.Dashes[:0], svg.parsePoints(val)...)\n", "E11.state-slice-reuse"},
 		{"height decided by the width attribute", "svg.go", `if attrHeight != "" && !strings\.HasSuffix\(attrHeight, "%"\) \{`, "if attrHeight != \"\" && !strings.HasSuffix(attrWidth, \"%\") {", "E11.viewbox-mirror"},
 		{"parsePoints fills a package-level scratch buffer", "svg.go", `func \(svg \*svgParser\) parsePoints\(v string\) \[\]float64 \{\n((?:.*\n){4})\tvals := \[\]float64\{\}\n`, "var scratchNumbers []float64\n\nfunc (svg *svgParser) parsePoints(v string) []float64 {\n$1\tvals := scratchNumbers[:0]\n", "E11.returned-scratch"},
@@ -248,6 +253,7 @@ var Mutants = map[string][]Mutant{
 		{"explicit width used as millimetres", "svg.go", `width = svg\.parseDimension\(attrWidth, 1\.0\) \* 25\.4 / 96\.0`, `width = svg.parseDimension(attrWidth, 1.0)`, "E11.svg-size"},
 	},
 	"C20": {
+		{"nil-options PDF renderer keeps the address of DefaultOptions", "renderers/pdf/pdf.go", `\t\tdefaultOptions := DefaultOptions\n\t\topts = &defaultOptions\n`, "\t\topts = &DefaultOptions\n", "E7.global-escape"},
 		{"sweep points released with their square", "path_intersection.go", `\t\tfor _, event := range square\.Events \{\n\t\t\tif !event\.left \{\n\t\t\t\tboPointPool\.Put\(event\.other\)\n\t\t\t\tboPointPool\.Put\(event\)\n\t\t\t\}\n\t\t\}\n\t\tboSquarePool\.Put\(square\)`, "\t\tfor _, event := range square.Events {\n\t\t\tboPointPool.Put(event)\n\t\t}\n\t\tboSquarePool.Put(square)", "E7.point-release"},
 		{"recycled node keeps its left child", "path_intersection.go", `\tn\.left = nil\n`, ``, "E7.pool-reinit"},
 		{"Flatten writes a package variable", "path.go", `func \(p \*Path\) Flatten\(tolerance float64\) \*Path \{\n`, "func (p *Path) Flatten(tolerance float64) *Path {\n\tTolerance = tolerance\n", "E7.global"},
